@@ -61,6 +61,9 @@ fn main() {
     let _ = log::set_logger(&FORMAT_ALL);
     log::set_max_level(log::LevelFilter::Trace);
     let args: Vec<String> = std::env::args().skip(1).collect();
+    if std::env::var("VERIF_INNER").is_err() && matches!(args.first().map(|s| s.as_str()), Some("check") | Some("replay")) {
+        std::process::exit(supervise(&args));
+    }
     // anything that escapes is a bug of the driver: exit 2, never 101
     let code = match std::panic::catch_unwind(|| real_main(&args)) {
         Ok(c) => c,
@@ -70,6 +73,104 @@ fn main() {
         }
     };
     std::process::exit(code);
+}
+
+/// `check` and `replay` run in a child process. The code under test can bring
+/// a process down in ways that cannot be caught inside it (stack overflow,
+/// abort on a failed allocation, a fatal signal); the supervising parent turns
+/// that into a verdict: for `check` it re-runs the runs that were in flight,
+/// one by one in fresh processes, and reports the one that dies again as a
+/// `crash` violation with a replay file; for `replay` a dying child IS the
+/// reproduction. Everything else (exit codes 0, 1, 2) is passed through.
+fn supervise(args: &[String]) -> i32 {
+    use std::os::unix::process::ExitStatusExt;
+    let exe = match std::env::current_exe() {
+        Ok(e) => e,
+        Err(_) => return 2,
+    };
+    let progress = std::env::temp_dir().join(format!("rpki-sim-progress-{}.bin", std::process::id()));
+    let _ = std::fs::write(&progress, vec![0u8; 8 * 80]);
+    let status = std::process::Command::new(&exe).args(args).env("VERIF_INNER", "1").env("VERIF_PROGRESS", &progress).status();
+    let in_flight: Vec<u64> = std::fs::read(&progress)
+        .map(|b| b.chunks(8).filter_map(|c| c.try_into().ok().map(u64::from_le_bytes)).filter(|v| *v > 0).map(|v| v - 1).collect())
+        .unwrap_or_default();
+    let _ = std::fs::remove_file(&progress);
+    let status = match status {
+        Ok(s) => s,
+        Err(e) => {
+            eprintln!("HARNESS ERROR: cannot start the worker process: {}", e);
+            return 2;
+        }
+    };
+    if let Some(code) = status.code() {
+        return if code == 0 || code == 1 { code } else { 2 };
+    }
+    let sig = status.signal().unwrap_or(0);
+    let what = format!(
+        "the process was brought down by signal {} ({}) while the code under test was running: a stack overflow, an abort or a fatal fault instead of an error value",
+        sig,
+        match sig { 6 => "SIGABRT", 11 => "SIGSEGV", 9 => "SIGKILL", 7 => "SIGBUS", 4 => "SIGILL", _ => "?" }
+    );
+    match args.first().map(|s| s.as_str()) {
+        Some("replay") => {
+            let path = args.get(1).cloned().unwrap_or_default();
+            let prop = std::fs::read_to_string(&path)
+                .ok()
+                .and_then(|t| serde_json::from_str::<serde_json::Value>(&t).ok())
+                .and_then(|d| d["property"].as_str().map(|s| s.to_string()))
+                .unwrap_or_default();
+            println!("  => crash:signal-{}: {}", sig, what);
+            println!("VIOLATION property={} replay={}", prop, path);
+            1
+        }
+        _ => {
+            let scns = scenarios();
+            let id = args.get(1).cloned().unwrap_or_default();
+            let s = match scns.iter().find(|s| s.id() == id) {
+                Some(s) => s,
+                None => return 2,
+            };
+            let tier = match flag(args, "--tier").or_else(|| std::env::var("VERIF_TIER").ok()).as_deref() {
+                Some("thorough") => Tier::Thorough,
+                _ => Tier::Quick,
+            };
+            let seed = std::env::var("VERIF_SEED").ok().and_then(|s| s.trim().parse::<u64>().ok()).unwrap_or(driver::DEFAULT_SEED);
+            let mut candidates = in_flight;
+            candidates.sort();
+            candidates.dedup();
+            eprintln!("worker process died with signal {}; re-running the {} runs that were in flight, one by one", sig, candidates.len());
+            for idx in candidates {
+                let key = format!("signal-{}", sig);
+                let path = driver::write_seed_replay(s.as_ref(), seed, tier, idx, "crash", &key, &what);
+                let st = std::process::Command::new(&exe)
+                    .arg("replay")
+                    .arg(&path)
+                    .env("VERIF_INNER", "1")
+                    .stdout(std::process::Stdio::null())
+                    .stderr(std::process::Stdio::null())
+                    .status();
+                match st {
+                    Ok(st) if st.code().is_none() => {
+                        println!("violation in run {}: crash:{} -- {}", idx, key, what);
+                        println!("  => crash:{}: {}", key, what);
+                        println!("VIOLATION property={} replay={}", s.id(), path.display());
+                        return 1;
+                    }
+                    Ok(st) if st.code() == Some(1) => {
+                        // the run violates the property in another way when run alone
+                        println!("violation in run {} (found while looking for the run that brought the process down)", idx);
+                        println!("VIOLATION property={} replay={}", s.id(), path.display());
+                        return 1;
+                    }
+                    _ => {
+                        let _ = std::fs::remove_file(&path);
+                    }
+                }
+            }
+            eprintln!("HARNESS ERROR: the worker process died with signal {} but none of the runs in flight does so when run alone", sig);
+            2
+        }
+    }
 }
 
 fn flag(args: &[String], name: &str) -> Option<String> {
